@@ -400,3 +400,76 @@ def simplify(conds):
         seen.add(c)
         res.append(c)
     return res
+
+
+def _pat_parts(p):
+    """(head, [argument patterns]) of a rendered pattern: `E::V(a, b)` -> ('E::V', ['a', 'b']); `(a, b)` -> ('', [..]); `x` -> ('x', [])"""
+    p = p.strip()
+    i = p.find('(')
+    if i < 0 or not p.endswith(')'):
+        return p, []
+    head, inner = p[:i], p[i + 1:-1]
+    args, depth, cur = [], 0, ''
+    for ch in inner:
+        if ch in '([{':
+            depth += 1
+        elif ch in ')]}':
+            depth -= 1
+        if ch == ',' and depth == 0:
+            args.append(cur.strip())
+            cur = ''
+        else:
+            cur += ch
+    if cur.strip():
+        args.append(cur.strip())
+    return head, args
+
+
+def pat_subsumes(g, s):
+    """every value matching the rendered pattern s matches g (g is s with parts generalised to `_`)"""
+    if g == '_' or g == s:
+        return True
+    gh, ga = _pat_parts(g)
+    sh, sa = _pat_parts(s)
+    if gh != sh or len(ga) != len(sa) or not ga:
+        return False
+    return all(pat_subsumes(a, b) for a, b in zip(ga, sa))
+
+
+def pat_disjoint(a, b):
+    """no value matches both rendered patterns (proved from differing constructors only)"""
+    if a == '_' or b == '_' or a == b:
+        return False
+    ah, aa = _pat_parts(a)
+    bh, ba = _pat_parts(b)
+    if '{' in ah or '{' in bh or '..' in a or '..' in b:
+        return False
+    if ah != bh:
+        # two different constructors / literals of one type; binders never appear in rendered patterns
+        return bool(ah) and bool(bh) and ('::' in ah or ah in ('Some', 'None', 'Ok', 'Err', 'true', 'false') or ah[:1].isdigit() or ah[:1] == '"') \
+            and ('::' in bh or bh in ('Some', 'None', 'Ok', 'Err', 'true', 'false') or bh[:1].isdigit() or bh[:1] == '"')
+    if len(aa) != len(ba):
+        return False
+    return any(pat_disjoint(x, y) for x, y in zip(aa, ba))
+
+
+def contradictory(conds):
+    """The pattern tests of one subject cannot all hold: the path is infeasible."""
+    by = {}
+    for s_, p_ in conds:
+        if isinstance(p_, str):
+            by.setdefault(s_, []).append(p_)
+    for s_, ps in by.items():
+        if len(ps) < 2:
+            continue
+        pos = [[a.strip() for a in p_.split(' | ')] for p_ in ps if not p_.startswith('not ') and p_ != '_']
+        neg = [a.strip() for p_ in ps if p_.startswith('not ') for a in p_[4:].split(' | ')]
+        for alts in pos:
+            if neg and all(any(pat_subsumes(n, a) for n in neg) for a in alts):
+                return True
+        for i in range(len(pos)):
+            for j in range(i + 1, len(pos)):
+                if all(pat_disjoint(a, b) for a in pos[i] for b in pos[j]):
+                    return True
+    return False
+
